@@ -79,7 +79,20 @@ def run(pid, tier, seed):
 
     # ---- 6. failing-input search on the implementation -------------------
     ctx.broken = bool(proof_broken or corr_bad)
-    failures = mod.search(ctx) or []
+    failures = []
+    # corpus first: minimised past failures and the witnesses of recorded findings
+    cdir = os.path.join(core.VERIF, "corpus", pid)
+    if os.path.isdir(cdir):
+        for fn in sorted(os.listdir(cdir)):
+            d = json.load(open(os.path.join(cdir, fn)))
+            r = mod.replay(json.loads(json.dumps(d)))
+            ctx.count("corpus-replayed")
+            if r:
+                r.setdefault("input", d.get("input"))
+                r["corpus"] = fn
+                failures.append(r)
+    seen_sigs = {f.get("sig") for f in failures}
+    failures += [f for f in (mod.search(ctx) or []) if f.get("sig") not in seen_sigs]
 
     # ---- 7. verdict ------------------------------------------------------
     lines = []
